@@ -32,6 +32,10 @@ type PoolTx struct {
 	// it creates, in order.
 	Ins, Refs, Outs []types.Hash256
 	Shape           string // "sc", "sf", "rev", "res-exp", "res-sp", "fat"
+	// SigHeight is the height of the state the v1 signatures were made for: the v1 signature hash
+	// carries a replay prefix that changes at the v2 allow height, so a v1 transaction is only valid
+	// in the epoch (before / from the allow height on) it was signed in.
+	SigHeight uint64
 }
 
 func (w *World) policy() types.SpendPolicy {
@@ -98,7 +102,7 @@ func (w *World) NewSiacoinPoolTx(cs consensus.State, v2 bool, ins []types.Siacoi
 	if fat > 0 {
 		data = append(data, make([]byte, fat)...)
 	}
-	p := &PoolTx{V2: v2, Fee: fee, Shape: "sc"}
+	p := &PoolTx{V2: v2, Fee: fee, Shape: "sc", SigHeight: cs.Index.Height}
 	if fat > 0 {
 		p.Shape = "fat"
 	}
@@ -137,7 +141,7 @@ func (w *World) NewSiacoinPoolTx(cs consensus.State, v2 bool, ins []types.Siacoi
 // NewSiafundPoolTx moves a confirmed siafund element to a new siafund output (the claim goes to
 // the world's address as an immature siacoin output, which is not catalogued).
 func (w *World) NewSiafundPoolTx(cs consensus.State, v2 bool, in types.SiafundElement, tag uint64) *PoolTx {
-	p := &PoolTx{V2: v2, Shape: "sf", Ins: []types.Hash256{types.Hash256(in.ID)}}
+	p := &PoolTx{V2: v2, Shape: "sf", Ins: []types.Hash256{types.Hash256(in.ID)}, SigHeight: cs.Index.Height}
 	out := types.SiafundOutput{Address: w.Addr, Value: in.SiafundOutput.Value}
 	if v2 {
 		txn := types.V2Transaction{
